@@ -27,6 +27,19 @@ pub struct World {
     pub data: usize,
     /// called from INSIDE the send closure with the bytes handed to the driver (before `mark_sent`)
     pub on_send: Option<Box<dyn FnMut(&[u8]) + Send>>,
+    /// set by the waker registered with `PduTx::replace_waker` before the last `po` (only in a world that
+    /// holds the TX handle): did that poll wake the transmit side?
+    pub tx_woken: std::sync::Arc<TxWoken>,
+}
+
+pub struct TxWoken(pub std::sync::atomic::AtomicBool);
+impl std::task::Wake for TxWoken {
+    fn wake(self: std::sync::Arc<Self>) {
+        self.0.store(true, std::sync::atomic::Ordering::SeqCst);
+    }
+    fn wake_by_ref(self: &std::sync::Arc<Self>) {
+        self.0.store(true, std::sync::atomic::Ordering::SeqCst);
+    }
 }
 
 pub fn parse_cmd(s: &str) -> Command {
@@ -82,13 +95,13 @@ impl World {
         storage.set_counters(fi, pi);
         let (tx, rx, pdu_loop) = storage.split();
         let pdu_loop: &'static PduLoop<'static> = Box::leak(Box::new(pdu_loop));
-        World { storage, tx: Some(tx), rx: Some(rx), pdu_loop, regs: BTreeMap::new(), n, data, on_send: None }
+        World { storage, tx: Some(tx), rx: Some(rx), pdu_loop, regs: BTreeMap::new(), n, data, on_send: None, tx_woken: std::sync::Arc::new(TxWoken(std::sync::atomic::AtomicBool::new(false))) }
     }
 
     /// Another view of the same storage for a further thread (no TX/RX handle; move those over with
     /// `take()` as needed).
     pub fn sibling(&self) -> World {
-        World { storage: self.storage, tx: None, rx: None, pdu_loop: self.pdu_loop, regs: BTreeMap::new(), n: self.n, data: self.data, on_send: None }
+        World { storage: self.storage, tx: None, rx: None, pdu_loop: self.pdu_loop, regs: BTreeMap::new(), n: self.n, data: self.data, on_send: None, tx_woken: std::sync::Arc::new(TxWoken(std::sync::atomic::AtomicBool::new(false))) }
     }
 
     pub fn snapshot(&self) -> String {
@@ -229,6 +242,10 @@ impl World {
                 }
             }
             "po" => {
+                if let Some(tx) = self.tx.as_ref() {
+                    self.tx_woken.0.store(false, std::sync::atomic::Ordering::SeqCst);
+                    tx.replace_waker(&std::task::Waker::from(self.tx_woken.clone()));
+                }
                 let Some(H::Fut(fut)) = self.regs.get_mut(&reg(1)) else { return "bad-op".into() };
                 match poll_once(fut.as_mut()) {
                     core::task::Poll::Pending => "pending".into(),
